@@ -447,7 +447,8 @@ def execute(case, keep_text=False):
         opt = klass(multi_nest_path=chain, observed=obs, model=model, **okw)
     else:
         opt = klass(polychord_path=chain, observed=obs, model=model, **okw)
-    S.configure_optimizer(opt, fit, derived=cfg['model'].get('derived', []))
+    S.configure_optimizer(opt, fit, derived=cfg['model'].get('derived', []),
+                          model=model, observed=obs)
 
     baseline = {}
     for n, t in list(model.fittingParameters.items()):
